@@ -2,4 +2,509 @@
 import PM.Diff
 import Proofs.Toks
 namespace PM
+
+/-! ### the marked-up token view -/
+
+@[simp] theorem fmtoks_nil : fmtoks [] = [] := by simp [fmtoks]
+@[simp] theorem fmtoks_cons (n : Node) (ns : List Node) : fmtoks (n :: ns) = n.mtoks ++ fmtoks ns := by
+  simp [fmtoks]
+@[simp] theorem Node.mtoks_text (s : List Nat) (m : Marks) :
+    (Node.text s m).mtoks = s.map (MTok.unit · m) := by simp [Node.mtoks]
+@[simp] theorem Node.mtoks_leaf (t : TypeId) (a : Attrs) (m : Marks) :
+    (Node.leaf t a m).mtoks = [MTok.leaf t a m] := by simp [Node.mtoks]
+@[simp] theorem Node.mtoks_elem (t : TypeId) (a : Attrs) (m : Marks) (k : List Node) :
+    (Node.elem t a m k).mtoks = MTok.op t a m :: (fmtoks k ++ [MTok.cl t a m]) := by simp [Node.mtoks]
+
+theorem fmtoks_append (a b : List Node) : fmtoks (a ++ b) = fmtoks a ++ fmtoks b := by
+  induction a with
+  | nil => simp
+  | cons n ns ih => simp [ih]
+
+mutual
+theorem Node.mtoks_length : ∀ n : Node, n.mtoks.length = n.size
+  | .text s m => by simp
+  | .leaf t a m => by simp
+  | .elem t a m kids => by
+    simp only [Node.mtoks_elem, Node.size_elem, List.length_cons, List.length_append, List.length_nil]
+    rw [fmtoks_length kids]; omega
+theorem fmtoks_length : ∀ ns : List Node, (fmtoks ns).length = fsize ns
+  | [] => by simp
+  | n :: ns => by simp [Node.mtoks_length n, fmtoks_length ns]
+end
+
+/-! ### longest common prefix -/
+
+section lcp
+variable {α : Type _} [DecidableEq α]
+
+@[simp] theorem lcpLen_nil_left (l : List α) : lcpLen [] l = 0 := by simp [lcpLen]
+@[simp] theorem lcpLen_nil_right (l : List α) : lcpLen l [] = 0 := by cases l <;> simp [lcpLen]
+@[simp] theorem lcpLen_cons_cons (x y : α) (xs ys : List α) :
+    lcpLen (x :: xs) (y :: ys) = if x = y then 1 + lcpLen xs ys else 0 := by simp [lcpLen]
+
+theorem lcpLen_append_left (l r r' : List α) : lcpLen (l ++ r) (l ++ r') = l.length + lcpLen r r' := by
+  induction l with
+  | nil => simp
+  | cons x xs ih => simp [ih]; omega
+
+theorem lcpLen_le_left : ∀ (a b : List α), lcpLen a b ≤ a.length
+  | [], _ => by simp
+  | _ :: _, [] => by simp
+  | x :: xs, y :: ys => by
+    have := lcpLen_le_left xs ys
+    simp only [lcpLen_cons_cons, List.length_cons]; split <;> omega
+
+theorem lcpLen_le_right : ∀ (a b : List α), lcpLen a b ≤ b.length
+  | [], _ => by simp
+  | _ :: _, [] => by simp
+  | x :: xs, y :: ys => by
+    have := lcpLen_le_right xs ys
+    simp only [lcpLen_cons_cons, List.length_cons]; split <;> omega
+
+theorem lcpLen_map_inj {β : Type _} [DecidableEq β] (f : α → β) (hf : ∀ x y, f x = f y → x = y) :
+    ∀ (a b : List α), lcpLen (a.map f) (b.map f) = lcpLen a b
+  | [], _ => by simp
+  | _ :: _, [] => by simp
+  | x :: xs, y :: ys => by
+    have ih := lcpLen_map_inj f hf xs ys
+    by_cases h : x = y
+    · subst h; simp [ih]
+    · have : f x ≠ f y := fun e => h (hf _ _ e)
+      simp [h, this]
+
+end lcp
+
+/-! ### heads of token sequences -/
+
+def MTok.isCl : MTok → Bool
+  | .cl .. => true
+  | _ => false
+
+/-- the rest is empty or starts with a close token -/
+def clStart : List MTok → Bool
+  | [] => true
+  | t :: _ => t.isCl
+
+/-- the list does not start with a text unit carrying marks `m` -/
+def NoUnit (m : Marks) (l : List MTok) : Prop := ∀ c rest, l ≠ MTok.unit c m :: rest
+
+/-- first token of a (normal) node -/
+def Node.hd : Node → MTok
+  | .text s m => .unit (s.headD 0) m
+  | .leaf t a m => .leaf t a m
+  | .elem t a m _ => .op t a m
+
+theorem Node.mtoks_eq_hd (x : Node) (h : x.norm = true) : x.mtoks = x.hd :: x.mtoks.tail := by
+  cases x with
+  | text s m => cases s <;> simp_all [Node.norm, Node.hd]
+  | leaf t a m => simp [Node.hd]
+  | elem t a m k => simp [Node.hd]
+
+theorem Node.hd_isCl (x : Node) : x.hd.isCl = false := by
+  cases x <;> simp [Node.hd, MTok.isCl]
+
+theorem Node.hd_ne_of_not_sameMarkup (x y : Node) (h : x.sameMarkup y = false) : x.hd ≠ y.hd := by
+  cases x <;> cases y <;> simp_all [Node.hd, Node.sameMarkup]
+
+theorem Node.hd_ne_unit_of_adjOk (s : List Nat) (m : Marks) (y : Node) (h : adjOk (.text s m) y = true)
+    (c : Nat) : y.hd ≠ MTok.unit c m := by
+  cases y <;> simp_all [Node.hd, adjOk]
+  intro _ e; exact h e.symm
+
+theorem Node.size_pos (x : Node) (h : x.norm = true) : 0 < x.size := by
+  cases x with
+  | text s m => cases s <;> simp_all [Node.norm]
+  | leaf t a m => simp
+  | elem t a m k => simp; omega
+
+/-! ### normal form -/
+
+theorem fnorm_cons (x : Node) (xs : List Node) (h : fnorm (x :: xs) = true) :
+    x.norm = true ∧ fnorm xs = true := by
+  cases xs with
+  | nil => simp_all [fnorm, fnormKids, chainOk]
+  | cons y ys => simp_all [fnorm, fnormKids, chainOk]
+
+theorem fnorm_cons_adj (x y : Node) (ys : List Node) (h : fnorm (x :: y :: ys) = true) :
+    adjOk x y = true := by
+  simp_all [fnorm, chainOk]
+
+theorem Node.norm_elem (t : TypeId) (a : Attrs) (m : Marks) (k : List Node) :
+    (Node.elem t a m k).norm = fnorm k := by simp [Node.norm, fnorm]
+
+theorem eq_nil_of_fsize_zero (k : List Node) (h : fnorm k = true) (hz : fsize k = 0) : k = [] := by
+  cases k with
+  | nil => rfl
+  | cons x xs =>
+    have := Node.size_pos x (fnorm_cons x xs h).1
+    simp at hz; omega
+
+theorem clStart_noUnit (m : Marks) (R : List MTok) (h : clStart R = true) : NoUnit m R := by
+  intro c rest e; subst e; simp [clStart, MTok.isCl] at h
+
+/-- what follows a text node in a normal fragment does not continue the text -/
+theorem noUnit_after_text (s : List Nat) (m : Marks) (xs : List Node) (R : List MTok)
+    (h : fnorm (.text s m :: xs) = true) (hR : clStart R = true) : NoUnit m (fmtoks xs ++ R) := by
+  cases xs with
+  | nil => simpa using clStart_noUnit m R hR
+  | cons y ys =>
+    have hadj := fnorm_cons_adj _ _ _ h
+    have hy := (fnorm_cons _ _ (fnorm_cons _ _ h).2).1
+    intro c rest e
+    rw [fmtoks_cons, Node.mtoks_eq_hd y hy] at e
+    simp at e
+    exact Node.hd_ne_unit_of_adjOk s m y hadj c e.1
+
+theorem lcpLen_text (m : Marks) : ∀ (s s' : List Nat) (A B : List MTok), s ≠ s' → NoUnit m A → NoUnit m B →
+    lcpLen (s.map (MTok.unit · m) ++ A) (s'.map (MTok.unit · m) ++ B) = lcpLen s s'
+  | [], [], _, _, h, _, _ => absurd rfl h
+  | [], c :: s', A, B, _, hA, _ => by
+    cases A with
+    | nil => simp
+    | cons t A =>
+      have := hA c A
+      simp at this
+      simp; intro e; exact this e
+  | c :: s, [], A, B, _, _, hB => by
+    cases B with
+    | nil => simp
+    | cons t B =>
+      have := hB c B
+      simp at this
+      simp; intro e; exact this e.symm
+  | c :: s, c' :: s', A, B, h, hA, hB => by
+    by_cases hc : c = c'
+    · subst hc
+      have hs : s ≠ s' := fun e => h (by rw [e])
+      simp [lcpLen_text m s s' A B hs hA hB]
+    · simp [hc]
+
+/-- a close token (or nothing) never continues a normal node -/
+theorem lcpLen_clStart_left (R : List MTok) (y : Node) (B : List MTok) (hR : clStart R = true)
+    (hy : y.norm = true) : lcpLen R (y.mtoks ++ B) = 0 := by
+  cases R with
+  | nil => simp
+  | cons t R =>
+    rw [Node.mtoks_eq_hd y hy]
+    have := Node.hd_isCl y
+    simp [clStart] at hR
+    simp; intro e; subst e; simp [hR] at this
+
+theorem lcpLen_clStart_right (R : List MTok) (y : Node) (B : List MTok) (hR : clStart R = true)
+    (hy : y.norm = true) : lcpLen (y.mtoks ++ B) R = 0 := by
+  cases R with
+  | nil => simp
+  | cons t R =>
+    rw [Node.mtoks_eq_hd y hy]
+    have := Node.hd_isCl y
+    simp [clStart] at hR
+    simp; intro e; subst e; simp [hR] at this
+
+theorem lcpLen_not_sameMarkup (x y : Node) (A B : List MTok) (hx : x.norm = true) (hy : y.norm = true)
+    (h : x.sameMarkup y = false) : lcpLen (x.mtoks ++ A) (y.mtoks ++ B) = 0 := by
+  rw [Node.mtoks_eq_hd x hx, Node.mtoks_eq_hd y hy]
+  simp [Node.hd_ne_of_not_sameMarkup x y h]
+
+/-! ### `diffStart` -/
+
+theorem Node.sameMarkup_self (x : Node) : x.sameMarkup x = true := by
+  cases x <;> simp [Node.sameMarkup]
+
+theorem diffStart_case9 (x y : Node) (hm : x.sameMarkup y = true)
+    (h1 : ∀ (s : List Nat) (m : Marks) (s' : List Nat) (m' : Marks), x = .text s m → y = .text s' m' → False)
+    (h2 : ∀ (t : TypeId) (a : Attrs) (m : Marks) (k : List Node) (t' : TypeId) (a' : Attrs) (m' : Marks)
+      (k' : List Node), x = .elem t a m k → y = .elem t' a' m' k' → False) :
+    x = y ∧ ∃ t a m, x = .leaf t a m := by
+  cases x with
+  | text s m =>
+    cases y with
+    | text s' m' => exact (h1 _ _ _ _ rfl rfl).elim
+    | leaf => simp [Node.sameMarkup] at hm
+    | elem => simp [Node.sameMarkup] at hm
+  | leaf t a m =>
+    cases y with
+    | text s' m' => simp [Node.sameMarkup] at hm
+    | leaf t' a' m' =>
+      simp [Node.sameMarkup] at hm
+      simp [hm]
+    | elem => simp [Node.sameMarkup] at hm
+  | elem t a m k =>
+    cases y with
+    | text s' m' => simp [Node.sameMarkup] at hm
+    | leaf => simp [Node.sameMarkup] at hm
+    | elem => exact (h2 _ _ _ _ _ _ _ _ rfl rfl).elim
+
+theorem diffStart_none_of_eq (a b : List Node) (pos : Nat) (h : a = b) : diffStart a b pos = none := by
+  fun_induction diffStart a b pos with
+  | case1 => rfl
+  | case2 => simp at h
+  | case3 => simp at h
+  | case4 x xs y ys pos hm =>
+    simp at h; rw [h.1] at hm; simp [Node.sameMarkup_self] at hm
+  | case5 xs ys pos s m s' m' hs => simp at h; exact absurd h.1.1 hs
+  | case6 xs ys pos s m s' m' hs hm ih => simp at h; exact ih h.2
+  | case7 xs ys pos t a m k t' a' m' k' r hr hm ih =>
+    simp at h
+    have := ih h.1.2.2.2
+    split at hr <;> simp_all
+  | case8 xs ys pos t a m k t' a' m' k' hr hm ih ih2 => simp at h; exact ih2 h.2
+  | case9 x xs y ys pos hm h1 h2 ih => simp at h; exact ih h.2
+
+theorem eq_of_diffStart_none (a b : List Node) (pos : Nat) (ha : fnorm a = true) (hb : fnorm b = true)
+    (h : diffStart a b pos = none) : a = b := by
+  fun_induction diffStart a b pos with
+  | case1 => rfl
+  | case2 => simp at h
+  | case3 => simp at h
+  | case4 x xs y ys pos hm => simp at h
+  | case5 xs ys pos s m s' m' hs => simp at h
+  | case6 xs ys pos s m s' m' hs hm ih =>
+    simp [Node.sameMarkup] at hm hs
+    rw [ih (fnorm_cons _ _ ha).2 (fnorm_cons _ _ hb).2 h, hm, hs]
+  | case7 xs ys pos t a m k t' a' m' k' r hr hm ih => simp at h
+  | case8 xs ys pos t a m k t' a' m' k' hr hm ih ih2 =>
+    simp [Node.sameMarkup] at hm
+    have hka : fnorm k = true := by rw [← Node.norm_elem t a m k]; exact (fnorm_cons _ _ ha).1
+    have hkb : fnorm k' = true := by rw [← Node.norm_elem t' a' m' k']; exact (fnorm_cons _ _ hb).1
+    have hk : k = k' := by
+      split at hr
+      · exact ih hka hkb hr
+      · rename_i hz
+        have hz1 : fsize k = 0 := by omega
+        have hz2 : fsize k' = 0 := by omega
+        rw [eq_nil_of_fsize_zero k hka hz1, eq_nil_of_fsize_zero k' hkb hz2]
+    rw [ih2 (fnorm_cons _ _ ha).2 (fnorm_cons _ _ hb).2 h, hm.1.1, hm.1.2, hm.2, hk]
+  | case9 x xs y ys pos hm h1 h2 ih =>
+    have hxy := (diffStart_case9 x y (by simpa using hm) h1 h2).1
+    rw [ih (fnorm_cons _ _ ha).2 (fnorm_cons _ _ hb).2 h, hxy]
+
+theorem fsize_eq_of_diffStart_none (a b : List Node) (pos : Nat) (h : diffStart a b pos = none) :
+    fsize a = fsize b := by
+  fun_induction diffStart a b pos with
+  | case1 => rfl
+  | case2 => simp at h
+  | case3 => simp at h
+  | case4 x xs y ys pos hm => simp at h
+  | case5 xs ys pos s m s' m' hs => simp at h
+  | case6 xs ys pos s m s' m' hs hm ih =>
+    simp at hs; subst hs
+    simp [ih h]
+  | case7 xs ys pos t a m k t' a' m' k' r hr hm ih => simp at h
+  | case8 xs ys pos t a m k t' a' m' k' hr hm ih ih2 =>
+    have h2 := ih2 h
+    have : fsize k = fsize k' := by
+      split at hr
+      · exact ih hr
+      · omega
+    simp [h2, this]
+  | case9 x xs y ys pos hm h1 h2 ih =>
+    have hxy := (diffStart_case9 x y (by simpa using hm) h1 h2).1
+    simp [ih h, hxy]
+
+theorem diffStart_le' (a b : List Node) (pos q : Nat) (h : diffStart a b pos = some q) :
+    q ≤ pos + fsize a ∧ q ≤ pos + fsize b := by
+  fun_induction diffStart a b pos generalizing q with
+  | case1 => simp at h
+  | case2 => simp at h; omega
+  | case3 => simp at h; omega
+  | case4 x xs y ys pos hm => simp at h; omega
+  | case5 xs ys pos s m s' m' hs =>
+    simp at h
+    have := lcpLen_le_left s s'
+    have := lcpLen_le_right s s'
+    simp; omega
+  | case6 xs ys pos s m s' m' hs hm ih =>
+    simp at hs; subst hs
+    have := ih q h
+    simp; omega
+  | case7 xs ys pos t a m k t' a' m' k' r hr hm ih =>
+    simp at h; subst h
+    have : diffStart k k' (pos + 1) = some r := by split at hr <;> simp_all
+    have := ih r this
+    simp; omega
+  | case8 xs ys pos t a m k t' a' m' k' hr hm ih ih2 =>
+    have := ih2 q h
+    have : fsize k = fsize k' := by
+      split at hr
+      · exact fsize_eq_of_diffStart_none _ _ _ hr
+      · omega
+    simp at *; omega
+  | case9 x xs y ys pos hm h1 h2 ih =>
+    have := ih q h
+    have hxy := (diffStart_case9 x y (by simpa using hm) h1 h2).1
+    subst hxy
+    simp; omega
+
+theorem fnorm_kids (t : TypeId) (a : Attrs) (m : Marks) (k : List Node) (xs : List Node)
+    (h : fnorm (.elem t a m k :: xs) = true) : fnorm k = true := by
+  rw [← Node.norm_elem t a m k]; exact (fnorm_cons _ _ h).1
+
+/-- the position reported by `diffStart` is the length of the common prefix of the token sequences,
+    also when both are followed by a closing token (or nothing) -/
+theorem diffStart_lcp_gen (a b : List Node) (pos q : Nat) (R R' : List MTok)
+    (ha : fnorm a = true) (hb : fnorm b = true) (hR : clStart R = true) (hR' : clStart R' = true)
+    (h : diffStart a b pos = some q) : q = pos + lcpLen (fmtoks a ++ R) (fmtoks b ++ R') := by
+  fun_induction diffStart a b pos generalizing q R R' with
+  | case1 => simp at h
+  | case2 y ys pos =>
+    simp at h
+    simp [lcpLen_clStart_left R y _ hR (fnorm_cons _ _ hb).1, h]
+  | case3 x xs pos =>
+    simp at h
+    simp [lcpLen_clStart_right R' x _ hR' (fnorm_cons _ _ ha).1, h]
+  | case4 x xs y ys pos hm =>
+    simp at h hm
+    simp [lcpLen_not_sameMarkup x y _ _ (fnorm_cons _ _ ha).1 (fnorm_cons _ _ hb).1 hm, h]
+  | case5 xs ys pos s m s' m' hs hm =>
+    simp [Node.sameMarkup] at hm; subst hm
+    simp at h
+    simp only [fmtoks_cons, Node.mtoks_text, List.append_assoc]
+    rw [lcpLen_text m s s' _ _ hs (noUnit_after_text s m xs R ha hR) (noUnit_after_text s' m ys R' hb hR'), h]
+  | case6 xs ys pos s m s' m' hs hm ih =>
+    simp [Node.sameMarkup] at hm; subst hm
+    simp at hs; subst hs
+    have := ih q R R' (fnorm_cons _ _ ha).2 (fnorm_cons _ _ hb).2 hR hR' h
+    simp only [fmtoks_cons, Node.mtoks_text, List.append_assoc]
+    rw [lcpLen_append_left, this]; simp; omega
+  | case7 xs ys pos t a m k t' a' m' k' r hr hm ih =>
+    simp [Node.sameMarkup] at hm
+    obtain ⟨⟨rfl, rfl⟩, rfl⟩ := hm
+    simp at h; subst h
+    have hd : diffStart k k' (pos + 1) = some r := by split at hr <;> simp_all
+    have := ih r (MTok.cl t a m :: (fmtoks xs ++ R)) (MTok.cl t a m :: (fmtoks ys ++ R'))
+      (fnorm_kids _ _ _ _ _ ha) (fnorm_kids _ _ _ _ _ hb) (by simp [clStart, MTok.isCl])
+      (by simp [clStart, MTok.isCl]) hd
+    simp [this]; omega
+  | case8 xs ys pos t a m k t' a' m' k' hr hm ih ih2 =>
+    simp [Node.sameMarkup] at hm
+    obtain ⟨⟨rfl, rfl⟩, rfl⟩ := hm
+    have hka := fnorm_kids _ _ _ _ _ ha
+    have hkb := fnorm_kids _ _ _ _ _ hb
+    have hk : k = k' := by
+      split at hr
+      · exact eq_of_diffStart_none _ _ _ hka hkb hr
+      · rename_i hz
+        have hz1 : fsize k = 0 := by omega
+        have hz2 : fsize k' = 0 := by omega
+        rw [eq_nil_of_fsize_zero k hka hz1, eq_nil_of_fsize_zero k' hkb hz2]
+    subst hk
+    have := ih2 q R R' (fnorm_cons _ _ ha).2 (fnorm_cons _ _ hb).2 hR hR' h
+    simp only [fmtoks_cons, List.append_assoc]
+    rw [lcpLen_append_left, this, Node.mtoks_length]; omega
+  | case9 x xs y ys pos hm h1 h2 ih =>
+    have hxy := (diffStart_case9 x y (by simpa using hm) h1 h2).1
+    subst hxy
+    have := ih q R R' (fnorm_cons _ _ ha).2 (fnorm_cons _ _ hb).2 hR hR' h
+    simp only [fmtoks_cons, List.append_assoc]
+    rw [lcpLen_append_left, this, Node.mtoks_length]; omega
+
+/-! ### mirror images -/
+
+/-- exchange open and close tokens -/
+def MTok.swap : MTok → MTok
+  | .op t a m => .cl t a m
+  | .cl t a m => .op t a m
+  | x => x
+
+@[simp] theorem MTok.swap_swap (t : MTok) : t.swap.swap = t := by cases t <;> rfl
+
+theorem MTok.swap_inj (x y : MTok) (h : x.swap = y.swap) : x = y := by
+  have := congrArg MTok.swap h
+  simpa using this
+
+@[simp] theorem fmirror_nil : fmirror [] = [] := by simp [fmirror]
+@[simp] theorem fmirror_cons (n : Node) (ns : List Node) : fmirror (n :: ns) = fmirror ns ++ [n.mirror] := by
+  simp [fmirror]
+@[simp] theorem Node.mirror_text (s : List Nat) (m : Marks) : (Node.text s m).mirror = .text s.reverse m := by
+  simp [Node.mirror]
+@[simp] theorem Node.mirror_leaf (t : TypeId) (a : Attrs) (m : Marks) : (Node.leaf t a m).mirror = .leaf t a m := by
+  simp [Node.mirror]
+@[simp] theorem Node.mirror_elem (t : TypeId) (a : Attrs) (m : Marks) (k : List Node) :
+    (Node.elem t a m k).mirror = .elem t a m (fmirror k) := by simp [Node.mirror]
+
+theorem fmirror_append (a b : List Node) : fmirror (a ++ b) = fmirror b ++ fmirror a := by
+  induction a with
+  | nil => simp
+  | cons n ns ih => simp [ih]
+
+mutual
+theorem Node.mirror_mirror : ∀ n : Node, n.mirror.mirror = n
+  | .text s m => by simp
+  | .leaf t a m => by simp
+  | .elem t a m k => by simp [fmirror_fmirror k]
+theorem fmirror_fmirror : ∀ l : List Node, fmirror (fmirror l) = l
+  | [] => by simp
+  | n :: ns => by simp [fmirror_append, Node.mirror_mirror n, fmirror_fmirror ns]
+end
+
+theorem fmirror_inj (a b : List Node) (h : fmirror a = fmirror b) : a = b := by
+  have := congrArg fmirror h
+  simpa [fmirror_fmirror] using this
+
+mutual
+theorem Node.mirror_size : ∀ n : Node, n.mirror.size = n.size
+  | .text s m => by simp
+  | .leaf t a m => by simp
+  | .elem t a m k => by simp [fmirror_size k]
+theorem fmirror_size : ∀ l : List Node, fsize (fmirror l) = fsize l
+  | [] => by simp
+  | n :: ns => by simp [fsize_append, Node.mirror_size n, fmirror_size ns]; omega
+end
+
+mutual
+theorem Node.mirror_mtoks : ∀ n : Node, n.mirror.mtoks = n.mtoks.reverse.map MTok.swap
+  | .text s m => by simp [MTok.swap, Function.comp_def]
+  | .leaf t a m => by simp [MTok.swap]
+  | .elem t a m k => by simp [fmirror_mtoks k, MTok.swap]
+theorem fmirror_mtoks : ∀ l : List Node, fmtoks (fmirror l) = (fmtoks l).reverse.map MTok.swap
+  | [] => by simp
+  | n :: ns => by simp [fmtoks_append, Node.mirror_mtoks n, fmirror_mtoks ns]
+end
+
+theorem adjOk_mirror (x y : Node) : adjOk y.mirror x.mirror = adjOk x y := by
+  cases x <;> cases y <;> simp [adjOk, bne_comm]
+
+theorem chainOk_concat : ∀ (l : List Node) (x : Node),
+    chainOk (l ++ [x]) = (chainOk l && match l.getLast? with | none => true | some y => adjOk y x)
+  | [], x => by simp [chainOk]
+  | [a], x => by simp [chainOk]
+  | a :: b :: l, x => by
+    have ih := chainOk_concat (b :: l) x
+    simp only [List.cons_append] at ih
+    simp only [List.cons_append, chainOk, ih, List.getLast?_cons_cons, Bool.and_assoc]
+
+theorem fmirror_getLast? (l : List Node) : (fmirror l).getLast? = l.head?.map Node.mirror := by
+  cases l <;> simp
+
+theorem chainOk_fmirror : ∀ l : List Node, chainOk (fmirror l) = chainOk l
+  | [] => by simp
+  | [a] => by simp [chainOk]
+  | a :: b :: l => by
+    have ih := chainOk_fmirror (b :: l)
+    rw [fmirror_cons, chainOk_concat, ih, fmirror_getLast?]
+    simp [chainOk, adjOk_mirror, Bool.and_comm]
+
+theorem fnormKids_append (a b : List Node) : fnormKids (a ++ b) = (fnormKids a && fnormKids b) := by
+  induction a with
+  | nil => simp [fnormKids]
+  | cons n ns ih => simp [fnormKids, ih, Bool.and_assoc]
+
+mutual
+theorem Node.mirror_norm : ∀ n : Node, n.mirror.norm = n.norm
+  | .text s m => by simp [Node.norm]
+  | .leaf t a m => by simp [Node.norm]
+  | .elem t a m k => by simp [Node.norm, fnormKids_fmirror k, chainOk_fmirror]
+theorem fnormKids_fmirror : ∀ l : List Node, fnormKids (fmirror l) = fnormKids l
+  | [] => by simp
+  | n :: ns => by
+    simp [fnormKids_append, fnormKids, Node.mirror_norm n, fnormKids_fmirror ns, Bool.and_comm]
+end
+
+theorem fnorm_fmirror (l : List Node) : fnorm (fmirror l) = fnorm l := by
+  simp [fnorm, fnormKids_fmirror, chainOk_fmirror]
+
+theorem lcpLen_fmirror (a b : List Node) :
+    lcpLen (fmtoks (fmirror a)) (fmtoks (fmirror b)) = lcpLen (fmtoks a).reverse (fmtoks b).reverse := by
+  rw [fmirror_mtoks, fmirror_mtoks, lcpLen_map_inj _ MTok.swap_inj]
+
 end PM
